@@ -86,7 +86,9 @@ def check_call(Runner, tab, lst, table, real=False):
         vs.append(violation("selection_rule", dict(key, call="first"), "list %s ran %s on the first call, documented rule selects %s" % (list(lst), sorted(set(first_calls) ^ set(sel))[:8], len(sel)), rp))
         return vs, None
     if sorted(ran) != sorted(sel):
-        vs.append(violation("selection_rule", key, "list %s ran %s, documented rule selects %s" % (list(lst), sorted(set(ran) ^ set(sel))[:8], len(sel)), rp))
+        twice = sorted({i for i in ran if ran.count(i) > 1})
+        vs.append(violation("selection_rule", key, "list %s ran %d countries (differing from the rule: %s; run more than once: %s), documented rule selects %s, each once" % (
+            list(lst), len(ran), sorted(set(ran) ^ set(sel))[:8], twice[:8], len(sel)), rp))
         return vs, None
     sel = [i for i in sel if fr[i] == fr[i]]          # a run that reported failure (NaN) is outside aggregate and results
     if sorted(results.keys()) != sorted(name[i] for i in sel) or len(results) != len(sel):
@@ -114,8 +116,14 @@ def patterns():
         yield tuple((iso if c == "named" else "!" + iso) for iso, c in zip(UNIVERSE, combo) if c != "absent")
 
 
+def duplicate_patterns():
+    """lists that name a country more than once (selection is a set of countries: each is run and counted once)"""
+    a, b, c = UNIVERSE[0], UNIVERSE[1], UNIVERSE[3]
+    return [(a, a), (a, b, a), (b, a, b, a), ("!" + a, "!" + a), ("!" + a, "!" + b, "!" + a), (a, "!" + c, a), ("!" + c, a, b, a)]
+
+
 def run(tier, seed):
-    jobs = [(p, t, False) for p in patterns() for t in range(5)]
+    jobs = [(p, t, False) for p in list(patterns()) + duplicate_patterns() for t in range(5)]
     real = [(("USA", "LUX"), 0, True), (("ARG", "!USA"), 0, True), (("!USA",) if tier == "thorough" else ("SWT",), 0, True)]
     res = common.pmap(job, jobs + real, init_fn=supplies.init, chunksize=1)
     vs = [v for r in res for v in r["v"]]
@@ -123,7 +131,7 @@ def run(tier, seed):
            "traces_validated_against_impl": len(res), "distinct_outcomes": len({r["agg"] for r in res}),
            "stubbed_calls": 2 * len(jobs), "real_unstubbed_calls": len(real),
            "bound": {"history": "every stubbed selection is run twice with the same list object; the second call is judged against the caller's original list",
-                     "selection": "every pattern absent / named / '!'-named per country over %s (81 lists: empty, inclusion, exclusion, mixed)" % UNIVERSE,
+                     "selection": "every pattern absent / named / '!'-named per country over %s (81 lists: empty, inclusion, exclusion, mixed) + 7 lists that name a country more than once" % UNIVERSE,
                      "fractions": "3 assignment tables over %s + 2 tables in which every third country reports a failed run (NaN)" % (list(FRACTIONS),), "real": [list(r[0]) for r in real]},
            "alphabet": "a state is one selected country row contributing to the aggregate; a transition one per-country step of run_model_no_trade",
            "samples": [{"selection": list(jobs[5][0]), "table": 0}, {"selection": list(jobs[-1][0]), "table": 2}, {"selection": ["USA", "LUX"], "real": True}],
